@@ -95,7 +95,7 @@ theorem lookup_none_setBody (G : Grammar) (i : Nat) (h : i < G.rules.length) (b'
   rcases lookup_setBody G i h b' name with ⟨h1, h2⟩ | ⟨r, h1, h2 | ⟨h2, h3⟩⟩ <;> simp_all
 
 theorem Inv_setBody {G : Grammar} (hinv : Inv F sg G) (i : Nat) (h : i < G.rules.length) (b' : Expr)
-    (hb : AllN (NodeOK sg) b') (ht : totalBody G.rules[i].body = true → totalBody b' = true)
+    (hb : AllN (NodeOK ⟨sg, forced G.rules[i]⟩) b') (ht : totalBody G.rules[i].body = true → totalBody b' = true)
     (hnp : F.skip = true → ∀ r ∈ (setBody G i h b').rules, AllN (NotPOK (setBody G i h b')) r.body) :
     Inv F sg (setBody G i h b') := by
   refine ⟨fun n => by rw [sigOf_setBody, hinv.sig], fun r hr => ?_, fun r hr hn => ?_, fun hf => ?_,
@@ -183,11 +183,13 @@ theorem runOnce_starLeaf {g : Grammar} {rules : List Rule} {p : Opt.Pass} (hp : 
 /-- one pass over one body gives a `TR`-related body.  The two matcher passes enter through
     their builder lemmas `hsqB`, `hskB` (OptSoundSquash / OptSoundSkip). -/
 theorem runOnce_TR {g G : Grammar} {p : Opt.Pass} (hp : Allowed F p) (hinv : Inv F sg G)
-    (hsqB : F.squash = true → ∀ a e, AllN (NodeOK sg) e → TR F G a e (Opt.mapBottomUp (Opt.squashChoice g) e))
-    (hskB : F.skip = true → ∀ a k e, (a = true ∨ NoTrivia G) → AllN (NodeOK sg) e → AllN (NotPOK G) e →
+    {fa : Bool}
+    (hsqB : F.squash = true → ∀ a e, AllN (NodeOK ⟨sg, fa⟩) e →
+      TR F G a e (Opt.mapBottomUp (Opt.squashChoice g) e))
+    (hskB : F.skip = true → ∀ a k e, (a = true ∨ NoTrivia G) → AllN (NodeOK ⟨sg, fa⟩) e → AllN (NotPOK G) e →
       TR F G a e (Opt.mapTopDown (Opt.skipPass G.rules 200) k e))
-    {a : Bool} (ha : p.atomicOnly = true → a = true ∨ NoTrivia G)
-    {e e' : Expr} (he : AllN (NodeOK sg) e) (hk : F.skip = true → AllN (NotPOK G) e)
+    {a : Bool} (ha : p.atomicOnly = true → a = true ∨ NoTrivia G) (hfa : fa = true → a = true)
+    {e e' : Expr} (he : AllN (NodeOK ⟨sg, fa⟩) e) (hk : F.skip = true → AllN (NotPOK G) e)
     (h : Opt.runOnce g G.rules p e = some e') : TR F G a e e' := by
   have := runOnce_out h
   subst this
@@ -198,7 +200,7 @@ theorem runOnce_TR {g G : Grammar} {p : Opt.Pass} (hp : Allowed F p) (hinv : Inv
   · exact hskB (hsk rfl) a _ e (ha rfl) he (hk (hsk rfl))
   · exact inlineBuiltin_TR a _ e he
   · exact hsqB (hsq rfl) a e he
-  · exact inlineSilent_TR hinv a e he
+  · exact inlineSilent_TR hinv.sig a hfa e he
 
 /-! ### `runStep` and the fold over the passes -/
 
@@ -206,9 +208,9 @@ theorem runOnce_TR {g G : Grammar} {p : Opt.Pass} (hp : Allowed F p) (hinv : Inv
 structure Builders (F : Feat) (sg : String → Option (String × Nat)) (g : Grammar) : Prop where
   sqSem : F.squash = true → SquashSem
   skSem : F.skip = true → ∀ G, SkipSem G
-  sqB : F.squash = true → ∀ G, G.usets = g.usets → Inv F sg G → ∀ a e, AllN (NodeOK sg) e →
+  sqB : F.squash = true → ∀ G, G.usets = g.usets → Inv F sg G → ∀ fa a e, AllN (NodeOK ⟨sg, fa⟩) e →
     TR F G a e (Opt.mapBottomUp (Opt.squashChoice g) e)
-  skB : F.skip = true → ∀ G, Inv F sg G → ∀ a k e, (a = true ∨ NoTrivia G) → AllN (NodeOK sg) e →
+  skB : F.skip = true → ∀ G, Inv F sg G → ∀ fa a k e, (a = true ∨ NoTrivia G) → AllN (NodeOK ⟨sg, fa⟩) e →
     AllN (NotPOK G) e → TR F G a e (Opt.mapTopDown (Opt.skipPass G.rules 200) k e)
   npB : F.skip = true → ∀ G (i : Nat) (h : i < G.rules.length) (b' : Expr), Inv F sg G →
     (∀ b, TR F G (ruleAtomic G.rules[i].name G.rules[i].mod b) G.rules[i].body b') →
@@ -264,8 +266,9 @@ theorem runStep_sound {g : Grammar} {p : Opt.Pass} (hp : Allowed F p) (B : Build
           exact isAtomic_flag hinv _ hmem this
         have htr : ∀ b0, TR F G (ruleAtomic rules[i].name rules[i].mod b0) rules[i].body b := by
           intro b0
-          refine runOnce_TR (g := g) (G := G) hp hinv (fun hF => B.sqB hF G rfl hinv)
-            (fun hF => B.skB hF G hinv) ?_ hbody (fun hF => hinv.notp hF _ hmem) hro
+          refine runOnce_TR (g := g) (G := G) hp hinv (fun hF => B.sqB hF G rfl hinv _)
+            (fun hF => B.skB hF G hinv _) ?_ (fun hf => forced_all hf b0) hbody
+            (fun hF => hinv.notp hF _ hmem) hro
           intro hao
           rcases hflag hao with h1 | h1
           · exact Or.inl (h1 b0)
@@ -274,7 +277,8 @@ theorem runStep_sound {g : Grammar} {p : Opt.Pass} (hp : Allowed F p) (B : Build
         have heq : EquivG G (setBody G i hiG b) :=
           equivG_of_GR hgr B.sqSem (fun hF => B.skSem hF G)
         have hinv' : Inv F sg (setBody G i hiG b) :=
-          Inv_setBody hinv i hiG b ((htr true).allN hinv.lookup_nodes hbody) (htr true).totalBody
+          Inv_setBody hinv i hiG b ((htr true).allN (sg := ⟨sg, forced rules[i]⟩) hinv.sig hinv.lookup_nodes hbody)
+            (htr true).totalBody
             (fun hF => B.npB hF G i hiG b hinv htr)
         have := ih (i + 1) (rules.set i { rules[i] with body := b }) rules' (by simp; omega) hinv' h
         exact ⟨heq.trans this.1, this.2⟩
